@@ -394,13 +394,37 @@ async def _stub_wait(cfg):
         await asyncio.sleep(cfg[1] * UNIT)
 
 
+WH_CAP = 4              # `['wh', k]`: at most this many poll periods are waited for a handler to be in flight
+
+
 async def _drive(side, script, stubs, tail_polls):
-    """run one script against a fresh real reader; returns (event log, final observations)"""
+    """run one script against a fresh real reader; returns (event log, final observations)
+
+    Script events: `['d', hex]` one `on_data` call; `['a', n]` n half poll periods of virtual time; `['y', k]` k loop turns;
+    with the stub `msg: ['gate', k]` (every `on_msg_coro` call SUSPENDS until the script releases it, then awaits k more turns):
+    `['wh', k]` wait until a handler is in flight (suspended inside `on_msg_coro`; gives up after WH_CAP poll periods when the
+    reader emits nothing), then k loop turns — what the script does next happens DURING that callback; `['r']` release every
+    handler in flight.  At the end of the script everything is released and later handlers do not suspend."""
     log = []
     msg_cfg, close_cfg = stubs.get('msg', ['ret']), stubs.get('close', ['ret'])
+    inflight, gate = [], {'open': False}
+
+    def release():
+        for f in inflight:
+            if not f.done():
+                f.set_result(None)
+        del inflight[:]
 
     async def on_msg(m):
         log.append(('m', m))
+        if msg_cfg[0] == 'gate':
+            if not gate['open']:
+                fut = asyncio.get_running_loop().create_future()
+                inflight.append(fut)
+                await fut
+            for _ in range(msg_cfg[1] if len(msg_cfg) > 1 else 0):
+                await asyncio.sleep(0)
+            return
         await _stub_wait(msg_cfg)
 
     async def on_close():
@@ -424,6 +448,19 @@ async def _drive(side, script, stubs, tail_polls):
         elif ev[0] == 'y':
             for _ in range(ev[1]):
                 await asyncio.sleep(0)
+        elif ev[0] == 'wh':
+            for _ in range(WH_CAP):
+                if inflight:
+                    break
+                await asyncio.sleep(2 * UNIT)
+                for _ in range(3):
+                    await asyncio.sleep(0)
+            for _ in range(ev[1]):
+                await asyncio.sleep(0)
+        elif ev[0] == 'r':
+            release()
+    gate['open'] = True
+    release()
     for _ in range(tail_polls):
         await asyncio.sleep(2 * UNIT)
         for _ in range(3):
@@ -570,15 +607,38 @@ class Runner:
 
 
 # ====================================================================== cases
-def build_script(frames, cuts, polls, rng=None):
-    """segments of the stream at `cuts`; after segment i the reader polls `polls[i]` times"""
+def build_script(frames, cuts, polls, rng=None, handler=None):
+    """segments of the stream at `cuts`; after segment i the reader polls `polls[i]` times.
+
+    `handler` = [pattern, k] (with the stub `msg: ['gate', …]`): what happens at the boundary between segment i and segment i+1 is
+    pattern[i % len(pattern)] —
+      'p'  plain: handlers in flight are released, the reader polls `polls[i]` times, then the next segment arrives;
+      'h'  the next segment arrives DURING the message callback: wait until a handler is in flight (+ k loop turns), deliver the
+           segment while it is suspended, release it afterwards;
+      'c'  the next segment follows at once (still during the same suspended callback when the boundary before it was 'h' / 'c')."""
     stream = b''.join(frames)
     pos = [0] + sorted(set(c for c in cuts if 0 < c < len(stream))) + [len(stream)]
     script = []
-    for i in range(len(pos) - 1):
+    nseg = len(pos) - 1
+    pat, kt = (handler[0] or 'p', handler[1]) if handler else (None, 0)
+    holding = False
+    for i in range(nseg):
         script.append(['d', stream[pos[i]:pos[i + 1]].hex()])
         k = polls[i] if i < len(polls) else 1
-        script += [['a', 2]] * k
+        if pat is None:
+            script += [['a', 2]] * k
+            continue
+        nxt = pat[i % len(pat)] if i + 1 < nseg else 'p'
+        if nxt == 'c':
+            continue
+        if holding:
+            script.append(['r'])
+            holding = False
+        if nxt == 'h':
+            script.append(['wh', kt])
+            holding = True
+        else:
+            script += [['a', 2]] * k
     return script
 
 
@@ -835,7 +895,7 @@ def shrink(ctx, runner, hl, fails):
         if changed:
             continue
         if cur.get('stubs'):
-            c2 = dict(cur, stubs={})
+            c2 = dict(cur, stubs={}, handler=None)
             if still(c2):
                 cur, changed = c2, True
                 continue
@@ -853,13 +913,15 @@ def hl_to_case(hl):
     cuts = sorted(set(c for c in hl['cuts'] if 0 < c < n))
     polls = list(hl['polls']) + [1] * (len(cuts) + 1)
     upto = hl.get('upto')
-    script = build_script(frames, cuts, polls[:len(cuts) + 1])
+    script = build_script(frames, cuts, polls[:len(cuts) + 1], handler=hl.get('handler'))
     if upto is not None:
         script = truncate_script(script, upto)
     case = {'kind': 'stream', 'proto': hl['proto'], 'msgs': hl['msgs'], 'frames': [f.hex() for f in frames],
             'script': script, 'stubs': hl.get('stubs', {}), 'cuts': cuts}
     if hl.get('via'):
         case['via'] = hl['via']
+    if hl.get('handler'):
+        case['handler'] = hl['handler']
     return case
 
 
@@ -1093,6 +1155,76 @@ def gen_embedded_cases(ctx, side, quick):
                 if rng.random() < 0.2:
                     hl['via'] = 'session'
                 yield 'embedded:' + where + (':via-session' if hl.get('via') else ''), hl
+
+
+def sized_msg(rng, side, size, ver='FIX.4.4'):
+    """a data message whose variable part has `size` bytes (equal sizes give frames of equal length)"""
+    if side.name == 'soup':
+        k = rng.choice(['seqData', 'seqData', 'unseqData', 'debug'])
+        if k == 'debug':
+            return [k, [rng.choice([65, 97, 48, 72, 90]) for _ in range(size)]]
+        return [k, bytes(rng.choice([0, 1, 2, 0x48, 0x5a, 65, 0xff]) for _ in range(size))]
+    return {'ver': ver, 'type': rng.choice(['D', '8', 'A']), 'hdr': [], 'body': [[58, ''.join(rng.choice('abz059') for _ in range(size))]]}
+
+
+HANDLER_PATTERNS = ['h', 'h', 'h', 'hp', 'ph', 'hc', 'hhp', 'hcp', 'hch', 'pph']
+
+
+def gen_handler_cases(ctx, side, quick):
+    """"with any timing" includes segments that arrive WHILE the reader is inside a running `on_msg_coro`: the message callback
+    really suspends (gated: it returns when the script lets it) and the following segment(s) are delivered during that suspension,
+    0..3 loop turns after the callback was entered — then the callback returns and NOTHING more may arrive (a reader that misjudges
+    what it has buffered at that moment loses the message for good; with later data it would merely lag).  Frame sizes: all equal,
+    equal in pairs, all different, random; one frame per segment, frame-sized segments shifted against the frame boundaries, two
+    frames per segment, half frames, random cuts; per boundary: during the callback / after it returned and the reader polled /
+    back to back; only a prefix of the stream; a logout or heartbeats among the frames."""
+    rng = ctx.rng
+    for ci in range((140 if side.name == 'soup' else 60) if quick else (2500 if side.name == 'soup' else 900)):
+        n = rng.choice([2, 2, 3, 3, 4, 5, 6, 9])
+        base = rng.choice([0, 1, 2, 5, 8, 13, 40])
+        mode = rng.choice(['equal', 'equal', 'pairs', 'different', 'random'])
+        if mode == 'equal':
+            sizes = [base] * n
+        elif mode == 'pairs':
+            sizes = [base + (i // 2) * rng.choice([1, 3]) for i in range(n)]
+        elif mode == 'different':
+            sizes = [base + i for i in range(n)]
+            rng.shuffle(sizes)
+        else:
+            sizes = [rng.choice([base, base, base + 1, base + 3, 0]) for _ in range(n)]
+        ver = rng.choice(FIX_VERSIONS)
+        msgs = [sized_msg(rng, side, z, ver) for z in sizes]
+        r = rng.random()
+        if r < 0.15:          # a logout among / behind them (frames after it must not be emitted)
+            at = rng.randrange(1, n + 1)
+            msgs.insert(at, rng.choice(SOUP_LOGOUT) if side.name == 'soup' else {'ver': ver, 'type': '5', 'hdr': [], 'body': []})
+        elif r < 0.3:         # heartbeats between them (consumed without a callback: nothing is in flight when the next segment arrives)
+            at = rng.randrange(0, n + 1)
+            msgs.insert(at, rng.choice(SOUP_HB) if side.name == 'soup' else {'ver': ver, 'type': '0', 'hdr': [], 'body': []})
+        descs = [side.desc(m) for m in msgs]
+        frames = [side.frame(m) for m in msgs]
+        ends = list(itertools.accumulate(len(f) for f in frames))
+        L = ends[-1]
+        seg = rng.choice(['per-frame', 'per-frame', 'per-frame', 'shifted', 'two-per-segment', 'halves', 'random'])
+        if seg == 'per-frame':
+            cuts = ends[:-1]
+        elif seg == 'shifted':
+            d = rng.choice([-2, -1, 1, 2])
+            cuts = [e + d for e in ends[:-1]]
+        elif seg == 'two-per-segment':
+            cuts = ends[1:-1:2]
+        elif seg == 'halves':
+            cuts = sorted(set(ends[:-1]) | {e - len(f) // 2 for e, f in zip(ends, frames)})
+        else:
+            cuts = rng.sample(range(1, L), min(L - 1, rng.randint(1, 5)))
+        cuts = sorted({c for c in cuts if 0 < c < L})
+        hl = {'proto': side.name, 'msgs': descs, 'cuts': cuts, 'polls': [rng.choice([1, 1, 2]) for _ in range(len(cuts) + 1)],
+              'stubs': {'msg': ['gate', rng.choice([0, 0, 1, 2])]}, 'handler': [rng.choice(HANDLER_PATTERNS), rng.choice([0, 0, 1, 2, 3])]}
+        if rng.random() < 0.2 and cuts:
+            hl['upto'] = rng.choice(cuts[1:] + [L]) if len(cuts) > 1 else L     # nothing arrives after one of the segments
+        yield 'handler:' + mode + ':' + seg, hl
+
+
 # payload sizes around the sign bit of the 2-byte length prefix (length field = payload + 1) and at its maximum
 BIG_PAYLOADS = [32765, 32766, 32767, 32768, 40000, 65533, 65534]
 
@@ -1294,6 +1426,10 @@ def run(ctx):
         'C03 model boundary: the callbacks given to the reader return normally (a raising on_msg_coro, which also stops the reader, is not modelled)',
         'C03 model boundary: a FIX frame is its byte slice; field-level decoding is the library\'s Message.from_bytes, applied by the harness to the frames the model cuts',
         'C03 tie: one model tick = one observed deserialize() call; data/tick order is taken from the event log of the real run under virtual time',
+        'C03 handler latency: a model tick is atomic (deserialize + emission), so how long on_msg_coro stays suspended is invisible to R; '
+        'segments that arrive during a suspended callback are `data` events between that tick and the next one — the event log records '
+        'every on_data call in the order it really happened, also those made while on_msg_coro is suspended (family `handler:*`); '
+        'Props/C03Handler.lean: the machine with an explicit busy flag refines R',
     ]
     executed = []          # (side, case, res)
     shrinks = [0]
@@ -1374,7 +1510,7 @@ def run(ctx):
             if hl is None and 'cuts' in case and runner.hangs == 0:
                 # a corpus case: rebuild the high-level form so that it can be shrunk like a generated one
                 cand = {'proto': case['proto'], 'msgs': case['msgs'], 'cuts': case['cuts'], 'polls': [1] * (len(case['cuts']) + 1),
-                        'stubs': case.get('stubs', {}), 'via': case.get('via')}
+                        'stubs': case.get('stubs', {}), 'via': case.get('via'), 'handler': case.get('handler')}
                 try:
                     if evaluate(ctx, runner, hl_to_case(cand))['fail']:
                         hl = cand
@@ -1415,6 +1551,10 @@ def run(ctx):
                 break
             do_case(label, hl)
         for label, hl in gen_embedded_cases(ctx, side, quick):
+            if runner.hangs >= 2:
+                break
+            do_case(label, hl)
+        for label, hl in gen_handler_cases(ctx, side, quick):
             if runner.hangs >= 2:
                 break
             do_case(label, hl)
